@@ -214,9 +214,36 @@ def int_pred(name, C, d, a, k):
     return (not bad, f"{name}: int operand {k} does not act as its residue: {bad} at x={a}")
 
 
+def shared_tuple_pred(v, mc, primes):
+    """ONE interpreter, FRESH classes: quadratic extensions over DIFFERENT primes declared with the SAME modulus-coefficient tuple
+    (entries negative or >= the smaller prime), used one after the other. Anything remembered per coefficient tuple / per degree
+    instead of per class (wrapped coefficients, a reduction table) shows only in such a history. Checked against the textbook
+    GF(p^2) oracle: x*x, a*b, a/b, a*a.inv(), a**(p^2-1)."""
+    from py_ecc.fields import field_elements as R, optimized_field_elements as Op
+    M = R if v == "ref" else Op
+    bad = []
+    for p in primes:
+        C = type(f"FQ2_hist_{v}_{p}", (M.FQ2,), {"field_modulus": p, "FQ2_MODULUS_COEFFS": tuple(mc)})
+        E = lambda l, p=p: O.Fpk(list(l), p, [c % p for c in mc])  # noqa: E731
+        for a, b in (((0, 1), (0, 1)), ((1, 1), (p - 1, 2)), ((2, p - 1), (1, 1))):
+            x, y = C(list(a)), C(list(b))
+            ex, ey = E(a), E(b)
+            for nm, got, want in (("mul", x * y, ex * ey), ("div", x / y, ex / ey), ("sq", x * x, ex * ex),
+                                  ("inv", x * x.inv(), E((1, 0))), ("pow", x ** (p * p - 1), E((1, 0)))):
+                if [int(c) % p for c in got.coeffs] != [int(c) % p for c in want.c] or not _canon(got, p):
+                    bad.append(f"GF({p}^2) {nm} {a} {b}: {[int(c) for c in got.coeffs]} != {[int(c) for c in want.c]}")
+    return (not bad, f"{v} FQ2 classes with the shared coefficient tuple {mc} over the primes {primes}, in this order: {bad[:4]}")
+
+
 def predicates(rng, tier, only=None):
     ps = []
     n = 2 if tier == "quick" else 12
+    for v in ("ref", "opt"):
+        # x^2 - 2 is irreducible over GF(3), GF(5), GF(11), GF(13); x^2 + 7 = x^2 + 1 over GF(3), x^2 + 3 over GF(7)... (7 = -3 mod 5: x^2+2)
+        ps.append(Pred("field-axioms", shared_tuple_pred, (v, (-2, 0), (3, 5, 11))))
+        ps.append(Pred("field-axioms", shared_tuple_pred, (v, (-2, 0), (13, 5, 3))))
+        ps.append(Pred("field-axioms", shared_tuple_pred, (v, (7, 0), (3, 5))))
+        ps.append(Pred("field-axioms", shared_tuple_pred, (v, (7, 0), (5, 3))))
     for name, C, d in _classes() + _small_classes(tier):
         p = C.field_modulus
         for _ in range(n):
